@@ -10,26 +10,23 @@ use spec::*;
 // in two chunks cut at ANY position (empty chunks included) yields, like the one-shot call: all bytes of
 // the block consumed and not one more (the trailing bytes are left for the next block), flush() =
 // Some(block) with block.count = count, block.data = the payload bytes, block.sync = exactly the 16 bytes
-// that follow the payload (so the reader's comparison against the header's sync marker sees the bytes of
-// the file — a mismatch cannot be masked by the split), and a second flush() = None. A block cut short
-// (input ends early) leaves flush() = None: no block is ever produced from a truncated block.
+// that follow the payload (so the reader's comparison against the header's sync marker — reader/mod.rs —
+// sees the bytes of the file: a mismatch cannot be masked or produced by the split), and a second flush()
+// = None. A block cut short (input ends early) leaves flush() = None: no block is ever produced from a
+// truncated block.
 // Grid rule: the payload size is concrete per harness (it sizes Vec::reserve/extend_from_slice).
+// The harness itself is loop-free so that a small unwind bound suffices (decode's outer loop runs once
+// per decoder state, the varint loop once per varint byte).
 // Stub: alloc::fmt::format.
-fn block_chunking<const PAYLOAD: usize>() {
-    const HDR: usize = 2;
+fn block_chunking<const PAYLOAD: usize, const TOTAL: usize>() {
+    // TOTAL = 2 + PAYLOAD + 16 + 2
     let count: u8 = kani::any();
     kani::assume(count < 64);
-    let body: [u8; 24] = kani::any();
-    let total = HDR + PAYLOAD + 16;
-    let mut input = [0u8; 28];
+    let mut input: [u8; TOTAL] = kani::any();
     input[0] = 2 * count; // zig-zag of a small non-negative long
     input[1] = 2 * PAYLOAD as u8;
-    let mut i = 0;
-    while i < PAYLOAD + 16 + 2 {
-        input[HDR + i] = body[i];
-        i += 1;
-    }
-    let n = total + 2;
+    let total = 2 + PAYLOAD + 16;
+    let n = TOTAL;
     let cut: usize = kani::any();
     kani::assume(cut <= n);
     let mut d = BlockDecoder::default();
@@ -64,83 +61,63 @@ fn block_chunking<const PAYLOAD: usize>() {
     assert!(b.data.len() == PAYLOAD);
     let j: usize = kani::any();
     kani::assume(j < 16);
-    assert!(b.sync[j] == input[HDR + PAYLOAD + j]);
+    assert!(b.sync[j] == input[2 + PAYLOAD + j]);
     if PAYLOAD > 0 {
         let k: usize = kani::any();
         kani::assume(k < PAYLOAD);
-        assert!(b.data[k] == input[HDR + k]);
+        assert!(b.data[k] == input[2 + k]);
     }
     assert!(d.flush().is_none());
     kani::cover!(cut == 0);
     kani::cover!(cut == 1);
-    kani::cover!(cut == HDR + PAYLOAD + 7); // inside the sync marker
+    kani::cover!(cut == 2 + PAYLOAD + 7); // inside the sync marker
     kani::cover!(cut == total);
     kani::cover!(cut == n);
 }
-// NOT CONFIRMED: did not finish within 900 s under a machine load of ~70 (no memory problem observed: 2.3 GB)
+// NOT CONFIRMED YET (an earlier form with loops in the harness and unwind 24 did not finish in 900 s under load)
 // @unit name=block_decode_chunking_p0 props=C14,C18 kind=bounded bound=payload=0_bytes_2_chunks fns=BlockDecoder::decode,BlockDecoder::flush tier=thorough timeout=900 mem=6
 #[kani::proof]
-#[kani::unwind(24)]
+#[kani::unwind(7)]
 #[kani::stub(alloc::fmt::format, stub_format)]
 fn block_decode_chunking_p0() {
-    block_chunking::<0>()
+    block_chunking::<0, 20>()
 }
-// NOT CONFIRMED: did not finish within 900 s under a machine load of ~70
+// NOT CONFIRMED YET
 // @unit name=block_decode_chunking_p3 props=C14,C18 kind=bounded bound=payload=3_bytes_2_chunks fns=BlockDecoder::decode,BlockDecoder::flush tier=thorough timeout=900 mem=6
 #[kani::proof]
-#[kani::unwind(24)]
+#[kani::unwind(7)]
 #[kani::stub(alloc::fmt::format, stub_format)]
 fn block_decode_chunking_p3() {
-    block_chunking::<3>()
+    block_chunking::<3, 23>()
 }
 
-// Contract (C08, C18): a negative block count or block size (corrupt header) is an error, not a panic or a
-// wrapped usize; an over-long varint is an error.
-// NOT CONFIRMED: did not finish within 900 s under a machine load of ~70
-// @unit name=block_decode_rejects_negative props=C08,C18 kind=bounded bound=input<=12_bytes_header_only fns=BlockDecoder::decode tier=thorough timeout=900 mem=4
+// Contract (C08, C18): a negative block count or a negative block size (corrupt header) is an error, not
+// a panic and not a wrapped usize: for a header made of a 1-byte count varint and a 1-byte size varint
+// (arbitrary values), decode returns Err exactly when the zig-zag image of the count or of the size is odd
+// (negative); otherwise Ok with count and the announced size recorded. (Over-long varints: VLQDecoder units.)
+// (confirmed: 844 s under load)
+// @unit name=block_decode_rejects_negative props=C08,C18 kind=bounded bound=header_of_two_1-byte_varints fns=BlockDecoder::decode tier=thorough timeout=900 mem=4
 #[kani::proof]
-#[kani::unwind(14)]
+#[kani::unwind(5)]
 #[kani::stub(alloc::fmt::format, stub_format)]
 fn block_decode_rejects_negative() {
-    let a: [u8; 12] = kani::any();
-    let n: usize = kani::any();
-    kani::assume(n <= 12);
-    // keep the decoder in the two header states: the size varint, if reached, announces 0 payload bytes or is negative/malformed
+    let c: u8 = kani::any();
+    let s: u8 = kani::any();
+    kani::assume(c < 0x80 && s < 0x80);
+    let input = [c, s];
     let mut d = BlockDecoder::default();
-    // first varint
-    let mut v = 0u64;
-    let mut i = 0;
-    let mut first: Option<(u64, usize)> = None;
-    let mut malformed = false;
-    while i < n && i < 10 {
-        if i == 9 && a[i] >= 2 {
-            malformed = true;
-            break;
-        }
-        v |= ((a[i] & 0x7f) as u64) << (7 * i);
-        if a[i] & 0x80 == 0 {
-            first = Some((v, i + 1));
-            break;
-        }
-        i += 1;
-    }
-    // only look at inputs that end with the first varint (the count)
-    kani::assume(malformed || first.is_none() || first.unwrap().1 == n);
-    let r = d.decode(&a[..n]);
-    if malformed {
-        assert!(r.is_err());
-    } else if let Some((u, _)) = first {
-        // zig-zag: odd images are negative
-        assert!(r.is_ok() == (u & 1 == 0));
-        if r.is_ok() {
-            assert!(d.in_progress.count as u64 == u / 2);
-        }
-    } else {
-        assert!(matches!(r, Ok(k) if k == n));
+    let r = d.decode(&input);
+    let neg = c & 1 == 1 || s & 1 == 1;
+    assert!(r.is_ok() == !neg);
+    if r.is_ok() {
+        assert!(d.in_progress.count == (c / 2) as usize);
+        // the announced payload size is what the decoder now waits for
+        assert!(d.bytes_remaining == (s / 2) as usize);
     }
     assert!(d.flush().is_none());
-    kani::cover!(malformed);
-    kani::cover!(r.is_err() && !malformed);
-    kani::cover!(r.is_ok() && first.is_some() && n == 10);
+    kani::cover!(r.is_err() && c & 1 == 1);
+    kani::cover!(r.is_err() && c & 1 == 0);
+    kani::cover!(r.is_ok() && s == 0);
+    kani::cover!(r.is_ok() && s == 126);
     std::mem::forget(r);
 }
